@@ -3,8 +3,11 @@ package props
 import (
 	"fmt"
 	"math/rand"
+	"os"
 	"runtime"
+	"runtime/debug"
 	"sort"
+	"strings"
 	"sync"
 	"sync/atomic"
 	"testing"
@@ -51,6 +54,9 @@ type cpCase struct {
 	Procs      int   `json:"gomaxprocs,omitempty"`
 	// Storm: write-only operation mix (the write buffer is pushed to as fast as the producers can)
 	Storm bool `json:"storm,omitempty"`
+	// ShrinkAtEnd (bound oracle only): after the final state has been recorded the maximum is lowered to 0 and maintenance
+	// runs once more; everything of positive weight must go
+	ShrinkAtEnd bool `json:"shrink_at_end,omitempty"`
 }
 
 type cpEvent struct {
@@ -85,6 +91,9 @@ type cpResult struct {
 	Expired    int // entries in the table that are expired at the end (not visible)
 	Evictions  int
 	PhaseReads int
+	// after SetMaximum(0) at the very end (ShrinkAtEnd): entries of positive weight that are still present
+	Shrunk          bool
+	LeftAfterShrink [][3]int
 }
 
 var cpStormKinds = []string{"set", "set", "set", "set", "set", "computewrite", "invalidate", "setifabsent"}
@@ -350,7 +359,20 @@ func runCP(c cpCase, s3 bool) *cpResult {
 			return
 		}
 		execWG.Add(1)
-		go func() { defer execWG.Done(); fn() }()
+		go func() {
+			defer execWG.Done()
+			defer func() {
+				if p := recover(); p != nil {
+					// A task the cache handed to its executor (maintenance, a notification) panicked. The run cannot go on -
+					// the eviction lock is still held - and the process would die anyway: report it as what it is.
+					msg := fmt.Sprintf("a task the cache handed to its executor panicked: %v; stack: %s", p, cpShortStack())
+					fmt.Println(cpCurrentProp + ": " + msg)
+					vh.ReportViolation(cpCurrentProp, cpCurrentTest, c, msg)
+					os.Exit(1)
+				}
+			}()
+			fn()
+		}()
 	}
 	switch c.Exec {
 	case 0:
@@ -464,6 +486,22 @@ func runCP(c cpCase, s3 bool) *cpResult {
 	res.Expired = res.Audit.TableNodes - len(res.Present)
 	sort.Ints(res.Coldest)
 	sort.Ints(res.Hottest)
+	if c.ShrinkAtEnd && c.Bound != 0 {
+		res.Shrunk = true
+		r.cache.SetMaximum(0)
+		for i := 0; i < 200; i++ {
+			r.cache.CleanUp()
+			execWG.Wait()
+			if i >= 2 && r.cache.VerifWriteBufferSize() == 0 && r.cache.VerifDrainStatus() == 0 {
+				break
+			}
+		}
+		for k, v := range r.cache.All() {
+			if e, ok := r.cache.GetEntryQuietly(k); ok && e.Weight > 0 {
+				res.LeftAfterShrink = append(res.LeftAfterShrink, [3]int{k, v, int(e.Weight)})
+			}
+		}
+	}
 	return res
 }
 
@@ -576,6 +614,10 @@ func cpBound(c cpCase, res *cpResult) error {
 		if e.Cause == otter.CauseOverflow && res.Weight[e.Val] == 0 {
 			return fmt.Errorf("zero-weight entry (%d,%d) was removed for size", e.Key, e.Val)
 		}
+	}
+	if res.Shrunk && len(res.LeftAfterShrink) > 0 && !c.Reentrant {
+		l := res.LeftAfterShrink[0]
+		return fmt.Errorf("after SetMaximum(0) and maintenance at the very end %d entries of positive weight are still present, e.g. (%d,%d) of weight %d: the bound cannot be restored", len(res.LeftAfterShrink), l[0], l[1], l[2])
 	}
 	return nil
 }
@@ -715,9 +757,13 @@ func runCPProp(t *testing.T, oc cpOracle) {
 			if oc.forceStats {
 				c.Stats = true
 			}
+			if oc.prop == "C04" {
+				c.ShrinkAtEnd = true
+			}
 			if oc.forceExpiry && c.Expiry == 0 {
 				c.Expiry = 1 + int(c.Seed&1)
 			}
+			cpCurrentProp, cpCurrentTest = oc.prop, oc.test
 			res := runCP(c, oc.s3)
 			if res.Hang {
 				o.Inconcl = true
@@ -741,6 +787,33 @@ func runCPProp(t *testing.T, oc cpOracle) {
 			return o
 		},
 	})
+}
+
+// set by runCPProp before every run: which property/test a crash inside a cache-started task is reported under
+var cpCurrentProp, cpCurrentTest string
+
+// crashGuard (deferred in executor goroutines of free-running tests): a panic inside a task the cache handed to its
+// executor cannot be survived (locks are held, the process would die): it is reported as a violation with the running case.
+func crashGuard(prop, test string, c any) {
+	if p := recover(); p != nil {
+		msg := fmt.Sprintf("a task the cache handed to its executor panicked: %v; stack: %s", p, cpShortStack())
+		fmt.Println(prop + ": " + msg)
+		vh.ReportViolation(prop, test, c, msg)
+		os.Exit(1)
+	}
+}
+
+func cpShortStack() string {
+	var keep []string
+	for _, l := range strings.Split(string(debug.Stack()), "\n") {
+		if strings.Contains(l, "otter/v2") && !strings.Contains(l, "verifharness") && !strings.HasPrefix(l, "\t") {
+			keep = append(keep, strings.TrimSpace(l))
+			if len(keep) >= 8 {
+				break
+			}
+		}
+	}
+	return strings.Join(keep, " <- ")
 }
 
 func cpHasRemovals(c cpCase, res *cpResult) bool { return len(res.Atomic) >= 2 }
